@@ -56,7 +56,7 @@ var deniedPkgs = map[string]bool{
 	"fmt": true, "reflect": true, "internal/reflectlite": true, "sync": true, "sync/atomic": true,
 	"runtime": true, "os": true, "time": true, "internal/bytealg": true, "unsafe": true,
 	"encoding/gob": true, "encoding/json": true, "syscall": true,
-	"log": true, "os/signal": true, "os/exec": true, "net": true, "io/fs": true, "path/filepath": true,
+	"log": true, "os/signal": true, "os/exec": true, "net": true, "io/fs": true,
 	"runtime/debug": true, "testing": true, "flag": true, "bufio": false, "math/rand": true, "hash/crc32": true,
 	"crypto/rand": true, "math/big": true, "io/ioutil": true, "text/tabwriter": true, "regexp": true,
 	"github.com/peterh/liner": true,
@@ -71,7 +71,7 @@ func pkgDenied(path string) bool {
 	if deniedPkgs[path] {
 		return true
 	}
-	if strings.HasPrefix(path, "internal/") && path != "internal/itoa" && path != "internal/stringslite" && path != "internal/byteorder" {
+	if strings.HasPrefix(path, "internal/") && path != "internal/itoa" && path != "internal/stringslite" && path != "internal/byteorder" && path != "internal/filepathlite" {
 		return true
 	}
 	if strings.HasPrefix(path, "runtime/") || strings.HasPrefix(path, "vendor/") || strings.HasPrefix(path, "crypto/") {
